@@ -43,8 +43,9 @@ def evaluate(g, P, A, label):
 @st.composite
 def perm_case(draw):
     gs = draw(objs.gemini_spec())
-    nmax = 10 if gs["base"] == "wasserstein" else 14
-    p = draw(gens.p_spec(n_min=1, n_max=nmax, scales=[0.05, 0.5, 2.0, 8.0, 20.0]))
+    big = draw(st.integers(0, 7)) == 0
+    nmax = (24 if big else 10) if gs["base"] == "wasserstein" else (200 if big else 14)
+    p = draw(gens.p_spec(n_min=1, n_max=nmax, k_max=32 if big else 6, scales=[0.05, 0.5, 2.0, 8.0, 20.0]))
     return {"g": gs, "p": p, "x": draw(gens.x_spec()), "rseed": draw(gens.seeds)}
 
 
